@@ -733,3 +733,67 @@ encaps_mode_contract!(encaps__hybrid_mode_fresh_seed, true);
 
 // (a stream contract on `sign` with two rights could not be discharged: CBMC cannot bound the iteration over the
 // two-element `RevisionVec` inside `sign`; the clause is covered natively by signature__structural_tampering_is_rejected)
+
+// ---------------------------------------------------------------------------
+// hash leaves and shuffle
+// ---------------------------------------------------------------------------
+
+// @obl props=C07,C01 tier=quick class=bounded fn=core::primitives::J_hash shape="all 32-byte S, U; also H_hash with and without K2, G_hash" loops="zeroize=34;memcmp=34;volatile_set=34"
+kproof! {
+    #[kani::unwind(8)]
+    fn hash_leaves__exact_input_streams() {
+        let s: [u8; 32] = kani::any();
+        let u: [u8; 32] = kani::any();
+        let n0 = oracle::n();
+        let (tag, ss) = J_hash(&secret32(s), &secret32(u));
+        assert!(oracle::n() == n0 + 1 && oracle::dom(n0) == oracle::DOM_SHA3_384 && oracle::len(n0) == 64, "C07: J is one SHA3-384 computation over 64 bytes");
+        assert!(oracle::in32(n0, 0) == s && oracle::in32(n0, 32) == u, "C07: J hashes S then U (the value binding T and every masked seed)");
+        let j = oracle::out(n0);
+        let mut t16 = [0u8; 16];
+        t16.copy_from_slice(&j[..16]);
+        assert!(tag == t16 && *ss == oracle::out32(n0, 16), "C07: tag = first 16 bytes, secret = next 32 bytes of J's output");
+        let (k1, t): (u8, [u8; 32]) = (any_fe(), kani::any());
+        let k2: [u8; 32] = kani::any();
+        let h = ok_or_forget(H_hash(&Pk { 0: k1 }, Some(&secret32(k2)), &secret32(t))).unwrap();
+        assert!(oracle::dom(n0 + 1) == oracle::DOM_SHA3_256 && oracle::len(n0 + 1) == 65 && oracle::input(n0 + 1)[0] == k1 && oracle::in32(n0 + 1, 1) == k2 && oracle::in32(n0 + 1, 33) == t && *h == oracle::out32(n0 + 1, 0), "C07/C11: H hashes K1 || K2 || T in hybridized mode");
+        let h2 = ok_or_forget(H_hash(&Pk { 0: k1 }, None, &secret32(t))).unwrap();
+        assert!(oracle::len(n0 + 2) == 33 && oracle::input(n0 + 2)[0] == k1 && oracle::in32(n0 + 2, 1) == t && *h2 == oracle::out32(n0 + 2, 0), "C07: H hashes K1 || T in classic mode");
+        let g = ok_or_forget(G_hash(&secret32(s))).unwrap();
+        assert!(oracle::dom(n0 + 3) == oracle::DOM_G && oracle::in32(n0 + 3, 0) == s && g.0 as u32 == oracle::out(n0 + 3)[0] as u32 % crate::core::nike::toy_p(), "C01/C16: r = G(S)");
+        std::mem::forget((ss, h, h2));
+    }
+}
+
+macro_rules! shuffle_contract {
+    ($name:ident, $n:expr) => {
+        kproof! {
+            #[kani::unwind(6)]
+            fn $name() {
+                let mut rng = SymRng;
+                let v: [u8; $n] = kani::any();
+                let mut w = v;
+                shuffle(&mut w[..], &mut rng);
+                // permutation: same multiset (counted per value, loop-free for n <= 3)
+                let mut i = 0;
+                while i < $n {
+                    let mut cv = 0;
+                    let mut cw = 0;
+                    let mut j = 0;
+                    while j < $n {
+                        if v[j] == v[i] { cv += 1; }
+                        if w[j] == v[i] { cw += 1; }
+                        j += 1;
+                    }
+                    assert!(cv == cw, "C01/C07: shuffling only permutes the components (no omission, no duplicate)");
+                    i += 1;
+                }
+            }
+        }
+    };
+}
+// @obl props=C14,C01 tier=quick class=proved fn=core::primitives::shuffle shape="empty slice (no panic)"
+shuffle_contract!(shuffle__empty_slice, 0);
+// @obl props=C01,C07,C14 tier=quick class=bounded fn=core::primitives::shuffle shape="3 symbolic elements, symbolic draws"
+shuffle_contract!(shuffle__permutation_3, 3);
+// @obl props=C01,C14 tier=quick class=bounded fn=core::primitives::shuffle shape="1 symbolic element"
+shuffle_contract!(shuffle__permutation_1, 1);
